@@ -213,6 +213,9 @@ def build_unit(u, scr, workdir, tier, trace=False):
                 'file': loc.get('file', ''),
                 'function': loc.get('function', ''),
                 'reach': desc.startswith('VF_REACH')}
+        if item['reach'] and item['function'].startswith('h_') and \
+                item['function'] != entry:
+            continue  # marker of another harness in the same file
         if trace and 'trace' in c:
             item['trace'] = c['trace']
         r.checks.append(item)
@@ -280,20 +283,46 @@ def known_match(known, unit_name, check):
     return None
 
 
+def _num(v):
+    """Numeric value of a trace value object (uses the bit pattern)."""
+    if not isinstance(v, dict):
+        return v
+    b = v.get('binary')
+    if b and re.match(r'^[01]+$', b):
+        u = int(b, 2)
+        ty = v.get('type', '')
+        if not ty.startswith('unsigned') and 'bool' not in ty and \
+                b[0] == '1' and v.get('name') == 'integer':
+            u -= 1 << len(b)
+        return u
+    data = v.get('data', v.get('name'))
+    m = re.match(r"^-?\d+", str(data))
+    return int(m.group(0)) if m else data
+
+
 def extract_inputs(trace, names):
+    """Last value assigned to each named harness variable; `name[i]` element
+    assignments are gathered into a list."""
     vals = {}
+    arrays = {}
     for step in trace:
         if step.get('stepType') != 'assignment':
             continue
         lhs = step.get('lhs', '')
-        base = re.sub(r'\[.*', '', lhs)
-        if lhs in names or base in names:
-            v = step.get('value', {})
-            data = v.get('data', v.get('name'))
-            if v.get('name') == 'array' or 'elements' in v:
-                data = [e.get('value', {}).get('data') for e in
-                        v.get('elements', [])]
-            vals[lhs] = data
+        v = step.get('value', {})
+        m = re.match(r'^(\w+)\[(\d+)l?\]$', lhs)
+        if m and m.group(1) in names:
+            arrays.setdefault(m.group(1), {})[int(m.group(2))] = \
+                _num(v)
+        elif lhs in names:
+            if 'elements' in v:
+                arrays[lhs] = {k: _num(e.get('value', {}))
+                               for k, e in enumerate(v['elements'])}
+            else:
+                vals[lhs] = _num(v)
+    for k, d in arrays.items():
+        n = max(d) + 1 if d else 0
+        vals[k] = [d.get(i2, 0) for i2 in range(n)]
     return vals
 
 
